@@ -271,14 +271,44 @@ def run(rep: Report, tier: str) -> None:
         if any(d.split(".")[-1] in ("lru_cache", "cache") for d in fn.decorators):
             rep.add(Finding("R27.3", f"R27.3/memoised/{q}", fn.module.rel, fn.node.lineno, q,
                             "memoised SDMX→VTL conversion: a different structure with the same key would reuse a stale mapping"))
-        # hand-rolled memo: module-level container indexed and assigned in the same function with a to_vtl_json result
-        for n in walk_no_nested(fn.node):
-            if isinstance(n, ast.Assign) and isinstance(n.targets[0], ast.Subscript) and isinstance(n.targets[0].value, ast.Name) \
-                    and n.targets[0].value.id in fn.module.assigns and fn.module.name.startswith("vtlengine.API"):
-                cont = fn.module.assigns[n.targets[0].value.id]
-                if isinstance(cont, (ast.Dict, ast.Call)) and any(isinstance(c, ast.Call) and "to_vtl_json" in src(c.func) for c in ast.walk(fn.node)):
-                    rep.add(Finding("R27.3", f"R27.3/cache/{q}/{n.targets[0].value.id}", fn.module.rel, n.lineno, q,
-                                    f"module-level container {n.targets[0].value.id} caches converted structures across calls"))
+    # hand-rolled memo: a function on the conversion path stores something derived from a conversion result in a process-global container
+    from sa import globalsx
+    on_path = set(cg.callers_closure([f.qualname])) | {f.qualname}
+    inv = globalsx.inventory(P)
+    nglob = 0
+    for gq, gvar in sorted(inv.items()):
+        for mq, lines in sorted({**gvar.mutators, **gvar.writers}.items()):
+            if mq not in on_path:
+                continue
+            fn = P.functions[mq]
+            tainted: Set[str] = set()
+
+            def derived(e: ast.AST) -> bool:
+                for x in ast.walk(e):
+                    if isinstance(x, ast.Name) and x.id in tainted:
+                        return True
+                    if isinstance(x, ast.Call) and any(t in on_path for t in P.resolve_call(fn, x)):
+                        return True
+                return False
+            changed = True
+            while changed:
+                changed = False
+                for n in walk_no_nested(fn.node):
+                    if isinstance(n, (ast.Assign, ast.AnnAssign)) and n.value is not None and derived(n.value):
+                        for t in (n.targets if isinstance(n, ast.Assign) else [n.target]):
+                            for x in ast.walk(t):
+                                if isinstance(x, ast.Name) and isinstance(x.ctx, ast.Store) and x.id not in tainted:
+                                    tainted.add(x.id)
+                                    changed = True
+            for n in walk_no_nested(fn.node):
+                if getattr(n, "lineno", None) in lines and isinstance(n, (ast.Assign, ast.AugAssign, ast.AnnAssign, ast.Expr)):
+                    nglob += 1
+                    val = n.value if n.value is not None else n
+                    if derived(val):
+                        rep.add(Finding("R27.3", f"R27.3/cache/{mq}/{gq.rsplit('.', 1)[-1]}", fn.module.rel, n.lineno, mq,
+                                        f"`{src(n)[:90]}` keeps a converted structure in the process-global `{gq}`: a later call that presents a different structure under the same key "
+                                        f"(a re-issued artefact, a Schema and a DSD sharing a URN) is answered with the components of the first one"))
+    rep.instance("R27.3", "process-global stores on the conversion path", nontrivial=False, sample={"stores examined": nglob, "functions on the path": len(on_path)})
     rep.analysed = {"dtype_keys": len(dmap), "pysdmx_datatype_members": len(dtype_enum), "roles": sorted(rmap), "docs_types": len(doc_types)}
     rep.assumptions = ["pysdmx enums are read from the installed package source (members = class-level NAME = 'value' assignments)",
                        "docs/data_structures.rst is the oracle for the mapping"]
